@@ -329,8 +329,18 @@ func (c *SimClient) Write(shard int64, req *proto.WriteRequest, timeout time.Dur
 }
 
 func (c *SimClient) Read(shard int64, timeout time.Duration, gets ...*proto.GetRequest) ([]*proto.GetResponse, string, error) {
-	cl, l, err := c.rpc(shard)
-	if err != nil {
+	return c.ReadVia("", shard, timeout, gets...)
+}
+
+// ReadVia sends the read to the given server address instead of the leader the client currently knows
+// (a client whose view of the assignments is old: any server that has ever led the shard).
+func (c *SimClient) ReadVia(addr string, shard int64, timeout time.Duration, gets ...*proto.GetRequest) ([]*proto.GetResponse, string, error) {
+	var cl proto.OxiaClientClient
+	var l string
+	var err error
+	if addr != "" {
+		cl, l = proto.NewOxiaClientClient(c.W.Net.Dial(c.EP, addr)), addr
+	} else if cl, l, err = c.rpc(shard); err != nil {
 		return nil, "", err
 	}
 	ctx, cancel := context.WithTimeout(context.Background(), timeout)
